@@ -1,7 +1,7 @@
 //! C10 harness: the same requests are answered by this binary built in the four feature sets
 //! (default, full-lexer, all-ranges, num-bigint); tools/props/c10.py compares the answers.
 //!
-//!   parse <mode m|i|e> <hex src> <csv of node kinds whose range is OptionalRange>
+//!   parse <mode m|i|e, tm|ti|te = parse_tokens(lex), S s x n c M I E a p N = typed `Parse` impls> <hex src> <csv of node kinds whose range is OptionalRange>
 //!         -> `(ok <{:?} of the tree>)` with the `range` of exactly those kinds replaced by `_`
 //!            (their `range` prints `()` without all-nodes-with-ranges and `a..b` with it), every other
 //!            range kept; integers print as decimal digits in both bigint backends' Debug;
@@ -12,7 +12,7 @@
 use pvh::*;
 use rustpython_parser::ast::OptionalRange;
 use rustpython_parser::text_size::{TextRange, TextSize};
-use rustpython_parser::{lexer, Mode, ParseErrorType, Tok};
+use rustpython_parser::{ast, lexer, Mode, Parse, ParseErrorType, Tok};
 
 fn strip_other_error(s: &str) -> String {
     // drop the free-text message of LexicalErrorType::OtherError("…"): messages are never compared
@@ -113,14 +113,45 @@ fn handle(ws: &[&str]) -> String {
                 Some(s) => s,
                 None => return "bad-request".into(),
             };
-            let mode = match *mode {
-                "m" => Mode::Module,
-                "i" => Mode::Interactive,
-                "e" => Mode::Expression,
+            let kinds: Vec<&str> = rest.first().map(|s| s.split(',').collect()).unwrap_or_default();
+            // the typed entry points (`Parse` impls of parser.rs) and `parse_tokens` over the lexer's stream: every
+            // public way into the parser must be configuration-independent, not only `parse`
+            fn typed<T: Parse + std::fmt::Debug>(src: &str, kinds: &[&str]) -> String {
+                match guard(|| T::parse(src, "<pvh>")) {
+                    None => "(panic)".into(),
+                    Some(Ok(t)) => format!("(ok {})", erase_optional(&format!("{:?}", t), kinds)),
+                    Some(Err(e)) => format!("(err {} {})", kind_text(&e.error), u32::from(e.offset)),
+                }
+            }
+            match *mode {
+                "S" => return typed::<ast::Suite>(&src, &kinds),
+                "s" => return typed::<ast::Stmt>(&src, &kinds),
+                "x" => return typed::<ast::Expr>(&src, &kinds),
+                "n" => return typed::<ast::Identifier>(&src, &kinds),
+                "c" => return typed::<ast::Constant>(&src, &kinds),
+                "M" => return typed::<ast::ModModule>(&src, &kinds),
+                "I" => return typed::<ast::ModInteractive>(&src, &kinds),
+                "E" => return typed::<ast::ModExpression>(&src, &kinds),
+                "a" => return typed::<ast::StmtAssign>(&src, &kinds),
+                "p" => return typed::<ast::StmtPass>(&src, &kinds),
+                "N" => return typed::<ast::ExprName>(&src, &kinds),
+                _ => {}
+            }
+            let (mode, tokens) = match *mode {
+                "m" => (Mode::Module, false),
+                "i" => (Mode::Interactive, false),
+                "e" => (Mode::Expression, false),
+                "tm" => (Mode::Module, true),
+                "ti" => (Mode::Interactive, true),
+                "te" => (Mode::Expression, true),
                 _ => return "bad-request".into(),
             };
-            let kinds: Vec<&str> = rest.first().map(|s| s.split(',').collect()).unwrap_or_default();
-            match guard(|| rustpython_parser::parse(&src, mode, "<pvh>")) {
+            let r = if tokens {
+                guard(|| rustpython_parser::parse_tokens(lexer::lex(&src, mode), mode, "<pvh>"))
+            } else {
+                guard(|| rustpython_parser::parse(&src, mode, "<pvh>"))
+            };
+            match r {
                 None => "(panic)".into(),
                 Some(Ok(t)) => format!("(ok {})", erase_optional(&format!("{:?}", t), &kinds)),
                 Some(Err(e)) => format!("(err {} {})", kind_text(&e.error), u32::from(e.offset)),
